@@ -1,3 +1,16 @@
-import UtilModel.RefCount.Props
-open UtilModel
+import UtilModel.RefCount.ConsProps
+open UtilModel UtilModel.RefCount UtilModel.RefCount.Cons
 #print axioms UtilModel.accepts_sound
+#print axioms UtilModel.accepted_satisfies
+#print axioms RefCount.Cons.creachable_inv
+#print axioms RefCount.Cons.cstep_frame
+#print axioms RefCount.Cons.access_snapshot
+#print axioms RefCount.Cons.access_value_current
+#print axioms RefCount.Cons.access_cancel_enabled
+#print axioms RefCount.Cons.access_cancel_quiescent
+#print axioms RefCount.Cons.access_reinvoke
+#print axioms RefCount.Cons.access_result
+#print axioms RefCount.Cons.released_once
+#print axioms RefCount.Cons.released_fires_iff
+#print axioms RefCount.Cons.wait_keeps_alive
+#print axioms RefCount.rel_not_while_held_inv
